@@ -161,6 +161,10 @@ func parseShapes(ts *Trafficshape) error {
 			if value.Count == 0 {
 				return fmt.Errorf(" 0 count for halt at index %d in shape index %d", index, shapeIndex)
 			}
+			// -1 stands for "every time"; no other negative count has a meaning.
+			if value.Count < -1 {
+				return fmt.Errorf("negative count for halt at index %d in shape index %d", index, shapeIndex)
+			}
 			shape.Actions[index] = Action(value)
 		}
 		offset := len(shape.Halts)
@@ -175,6 +179,10 @@ func parseShapes(ts *Trafficshape) error {
 			}
 			if value.Count == 0 {
 				return fmt.Errorf("0 count for close_connection at index %d in shape index %d",
+					index, shapeIndex)
+			}
+			if value.Count < -1 {
+				return fmt.Errorf("negative count for close_connection at index %d in shape index %d",
 					index, shapeIndex)
 			}
 			shape.Actions[offset+index] = Action(value)
